@@ -2,9 +2,10 @@ package volsim
 
 import (
 	"fmt"
-	"path/filepath"
 	"os"
+	"path/filepath"
 	"sort"
+	"strings"
 	"time"
 
 	"verifsim/simkit"
@@ -82,7 +83,8 @@ func genC38(tier string, seed uint64, idx int) *simkit.Plan {
 		case x < 38 && faults && stopping:
 			p.Add(simkit.St("syncfail", rng.Uint64()))
 		default:
-			kind := []string{"w", "w", "w", "d", "r", "r"}[rng.Intn(6)]
+			// x = an upload presenting ANOTHER cookie: refused when the key holds a blob (a request that fails inside a batch)
+			kind := []string{"w", "w", "w", "d", "r", "r", "w", "x"}[rng.Intn(8)]
 			st := simkit.St("op", rng.Uint64(), "client", rng.Intn(clients), "kind", kind, "key", 1+rng.Intn(keys), "size", rng.Range(1, 64), "fsync", rng.Chance(2, 3))
 			p.Add(st)
 		}
@@ -109,6 +111,7 @@ func execC38(r *simkit.Run) {
 	ff := &FaultFile{Inner: v.DataBackend, Fired: func(k string) { r.Fault(k) }}
 	v.DataBackend = ff
 	gates := simkit.NewGates(r)
+	ResetHeld()
 	h := &c38hist{}
 	r.Data = h
 	nClients := int(p.C("clients"))
@@ -124,8 +127,12 @@ func execC38(r *simkit.Run) {
 			for s := range c.gate {
 				out := &linOut{}
 				switch c.in.Kind {
-				case "w":
-					a := WriteArgs{Key: c.in.Key, Cookie: CookieOf(c.in.Key), Data: []byte(fmt.Sprintf("val-%06d-%s", c.in.Val, string(make([]byte, s.Int("size"))))), Fsync: s.Int("fsync") == 1}
+				case "w", "x":
+					cookie := CookieOf(c.in.Key)
+					if c.in.Kind == "x" {
+						cookie ^= 0x5a5a
+					}
+					a := WriteArgs{Key: c.in.Key, Cookie: cookie, Data: []byte(fmt.Sprintf("val-%06d-%s", c.in.Val, string(make([]byte, s.Int("size"))))), Fsync: s.Int("fsync") == 1}
 					n, _ := BuildNeedle(a, uint64(time.Now().Unix()))
 					_, err := st.WriteVolumeNeedle(VID, n, a.Fsync)
 					out.OK = err == nil
@@ -141,6 +148,9 @@ func execC38(r *simkit.Run) {
 					}
 				case "r":
 					rr := ReadBlob(st, c.in.Key, CookieOf(c.in.Key))
+					if rr.HeldChanged != "" {
+						out.Err = "HELD-READ-CHANGED: " + rr.HeldChanged
+					}
 					switch {
 					case rr.NotFound():
 						out.OK, out.NotFound = true, true
@@ -170,6 +180,9 @@ func execC38(r *simkit.Run) {
 				d := fmt.Sprintf("c%d %s key=%d val=%d [%d,%d] -> ok=%v nf=%v val=%d err=%s", c.id, c.in.Kind, c.in.Key, c.in.Val, c.call, ret, c.out.OK, c.out.NotFound, c.out.Val, c.out.Err)
 				h.desc = append(h.desc, d)
 				r.Log("return %s", d)
+				if strings.HasPrefix(c.out.Err, "HELD-READ-CHANGED") {
+					r.Violate("read-result-changed-after-return", "held-across-the-next-read", "%s", c.out.Err)
+				}
 				r.Abs(fmt.Sprintf("ret:%s:%v", c.in.Kind, c.out.OK))
 				c.busy, c.out = false, nil
 			}
@@ -177,7 +190,7 @@ func execC38(r *simkit.Run) {
 	}
 	issue := func(c *c38client, s *simkit.Step) {
 		c.in = linIn{Kind: s.Str("kind"), Key: uint64(s.Int("key"))}
-		if c.in.Kind == "w" {
+		if c.in.Kind == "w" || c.in.Kind == "x" {
 			valCounter++
 			c.in.Val = valCounter
 		}
@@ -281,12 +294,21 @@ var registerModel = porcupine.NondeterministicModel{
 		s := state.(int)
 		in := input.(linIn)
 		out := output.(linOut)
+		// state: 0 = no blob; v > 0 = value v stored under the key's own cookie; v < 0 = value -v stored under the other cookie
 		switch in.Kind {
 		case "w":
 			if out.OK {
 				return []interface{}{in.Val}
 			}
 			return []interface{}{s, in.Val} // a failed upload may or may not have applied
+		case "x":
+			if out.OK {
+				if s > 0 {
+					return nil // an upload with another cookie over a stored blob must be refused
+				}
+				return []interface{}{-in.Val}
+			}
+			return []interface{}{s, -in.Val}
 		case "d":
 			if out.OK {
 				return []interface{}{0}
@@ -297,12 +319,12 @@ var registerModel = porcupine.NondeterministicModel{
 			case !out.OK:
 				return []interface{}{s} // a read error carries no information
 			case out.NotFound:
-				if s == 0 {
+				if s <= 0 { // absent, or stored under the other cookie (the read handler answers 404)
 					return []interface{}{s}
 				}
 				return nil
 			default:
-				if s == out.Val {
+				if s > 0 && s == out.Val {
 					return []interface{}{s}
 				}
 				return nil
